@@ -122,6 +122,7 @@ def case(draw):
         c["a"] = draw(G.supports(["A", "B", "C"], allow_zero=False))
         c["b"] = draw(G.supports(["D", "E"], allow_zero=False))
         c["shared"] = draw(st.sampled_from(["A", "B", "C"]))
+        c["overlap_kind"] = draw(st.sampled_from(["supported", "zero_in_second", "zero_in_first", "zero_in_both"]))
     elif kind == "duplicate_candidates":
         cands, bl = draw(complete_profile())
         c.update(cands=cands, ballots=bl, dup=draw(st.integers(0, len(cands) - 1)),
@@ -408,9 +409,16 @@ def check(case):
         v, exc, _ = E.call(combine_preference_intervals, [a, b], [0.25, 0.75])
         if exc is not None:
             out.fail(kind, f"valid_rejected_{type(exc).__name__}", repr(exc))
-        b2 = PreferenceInterval({**{c: G.fl(v) for c, v in case["b"].items()}, case["shared"]: 0.5})
-        expect_raise(out, kind, lambda: combine_preference_intervals([a, b2], [0.25, 0.75]), (ValueError,),
-                     f"candidate {case['shared']} in both intervals")
+        ok_kind = case.get("overlap_kind", "supported")
+        sh = case["shared"]
+        a_sup = {c: G.fl(v) for c, v in case["a"].items()}
+        if ok_kind in ("zero_in_first", "zero_in_both"):
+            a_sup[sh] = 0.0  # the shared candidate is listed with zero support in the first interval
+        a2 = PreferenceInterval(a_sup)
+        b2 = PreferenceInterval({**{c: G.fl(v) for c, v in case["b"].items()},
+                                 sh: 0.0 if ok_kind in ("zero_in_second", "zero_in_both") else 0.5})
+        expect_raise(out, kind, lambda: combine_preference_intervals([a2, b2], [0.25, 0.75]), (ValueError,),
+                     f"candidate {sh} listed in both intervals ({ok_kind})")
         expect_raise(out, kind, lambda: combine_preference_intervals([a, b], [0.25, 0.75 + 1e-6]), (ValueError,),
                      "proportions summing to 1+1e-6")
         nt = True
